@@ -146,6 +146,23 @@ def replay_recip(chk, rs, c, variants):
                 cases.append((" [forward run of the source x 1e-11]", gconc, gflx, dc4 / 1e-11, df4 / 1e-11))
             except Exception as e:
                 chk.drift_note("recip (small source): %s raised %r" % (_cfg_key(c), e))
+        # SEVERAL levels in one footprint request against ONE forward run per height (a forward run with the same level list could
+        # share a defect that couples the levels)
+        if c["nz"] >= 3 and not os.environ.get("VERIF_NOMINAL") and (hash(_cfg_key(c)) + seed()) % 3 == 0:
+            lv3 = sorted({0, 1, c["nz"] - 1} | {int(v_) for v_ in c["lv"]}, reverse=True)[:3]          # node indices 0 .. nz - 1
+            try:
+                _, gc_m, gf_m = rs.solve3(np.zeros_like(q), kw, levels=list(lv3))
+                for k_, node_ in enumerate(lv3):
+                    _, dc_1, df_1 = rs.solve3(q, kw, footprint=False, meas_pt=(0.0, 0.0), levels=[node_])
+                    for name, G, D in (("flux", gf_m, df_1), ("conc", gc_m, dc_1)):
+                        lhs_, rhs_ = float(np.sum(q * G[k_])), float(D[0][jm, im])
+                        scale_ = max(float(np.sum(np.abs(q))) * float(np.max(np.abs(G[k_]))), abs(rhs_), 1e-300)      # rounding of either side scales with |q| x |G|
+                        if abs(lhs_ - rhs_) > TOL[prec] * scale_:
+                            _viol(chk, rs, c, "recip", "levels %s in one footprint request: sum(q*footprint) of slot %d (node %d) = %.12g but the forward %s of a run for that level alone at the tower = %.12g (rel %.2e)"
+                                  % (lv3, k_, node_, lhs_, name, rhs_, abs(lhs_ - rhs_) / scale_), profile=prof_kind, precision=prec, source=src_kind, q=q.tolist())
+                            return
+            except Exception as e:
+                chk.drift_note("recip (several levels): %s raised %r" % (_cfg_key(c), e))
         # the same identity on lengths that are not exactly representable: the tower still sits on node (jm, im), but
         # coordinate / cell size need not evaluate to the integer in floating point (0.3 / 0.1)
         # (not in the faithfulness test: the pinned-switch model speaks about the nominal geometry, and the pinned code's
